@@ -376,6 +376,58 @@ class BuiltinMixin(object):
             self.frames.pop()
         return out
 
+    def comprehension_filtered(self, node):
+        """[elt for target in iterable if cond] over an iterable of symbolic length n: a fresh list r with
+        0 <= len(r) <= n and a strictly increasing index map idx with  r[j] == elt(idx(j)),  cond(idx(j))  for every
+        j < len(r), and every index satisfying cond is hit (the list is exactly the filtered sequence)."""
+        ctx = self.ctx
+        gen = node.generators[0]
+        n, getter = self.iter_len_get(self.ev(gen.iter, False))
+        nz = self.Z(n)
+        i = z3.Int("k!q%d" % self.explorer.next_id())
+        saved = dict(self.frame.env)
+        try:
+            # safety obligations of cond / elt for an arbitrary index
+            probe_i = ctx.fresh("ci", z3.IntSort())
+            ctx.assume(z3.And(0 <= probe_i, probe_i < nz))
+            self.assign(gen.target, getter(probe_i))
+            for c in gen.ifs:
+                self.ev(c, False)
+            probe = self.ev(node.elt, False)
+            ety = type_of_value(probe)
+            if isinstance(probe, tuple):
+                ety = Ty("tuple", [type_of_value(x) for x in probe])
+            self.assign(gen.target, getter(i))
+            self.quant_depth = getattr(self, "quant_depth", 0) + 1
+            try:
+                cond = self.and_([self.as_bool_term(self.ev(c, True)) for c in gen.ifs])
+                elt = ctx.unwrap(self.coerce(self.ev(node.elt, True), ety), ety)
+            finally:
+                self.quant_depth -= 1
+        finally:
+            self.frame.env.clear()
+            self.frame.env.update(saved)
+        cond = z3.BoolVal(cond) if isinstance(cond, bool) else cond
+        k = self.explorer.next_id()
+        idx = z3.Function("cidx!%d" % k, z3.IntSort(), z3.IntSort())
+        j, j2 = z3.Int("j!q%d" % k), z3.Int("jj!q%d" % k)
+        new = ctx.alloc(Ty("list", [ety]))
+        nr = ctx.fresh("complen", z3.IntSort())
+        inner = ctx.fresh("comp", z3.ArraySort(z3.IntSort(), sort_of(ety, ctx.num)))
+        ctx.assume(z3.And(0 <= nr, nr <= nz))
+        at = lambda t, jj: z3.substitute(t, (i, idx(jj)))
+        ctx.assume(z3.ForAll([j], z3.Implies(z3.And(0 <= j, j < nr), z3.And(
+            0 <= idx(j), idx(j) < nz, at(cond, j), z3.Select(inner, j) == at(elt, j))), patterns=[idx(j)]))
+        ctx.assume(z3.ForAll([j, j2], z3.Implies(z3.And(0 <= j, j < j2, j2 < nr), idx(j) < idx(j2)),
+                             patterns=[z3.MultiPattern(idx(j), idx(j2))]))
+        # completeness: an index that satisfies the condition occurs in the result
+        inv = z3.Function("cinv!%d" % k, z3.IntSort(), z3.IntSort())
+        ctx.assume(z3.ForAll([i], z3.Implies(z3.And(0 <= i, i < nz, cond),
+                                             z3.And(0 <= inv(i), inv(i) < nr, idx(inv(i)) == i)), patterns=[inv(i)]))
+        ctx.set_list_len(new, nr)
+        ctx.set_list_arr(new, ety, inner)
+        return new
+
     def comprehension_list(self, node, spec):
         ctx = self.ctx
         if spec:
@@ -388,8 +440,10 @@ class BuiltinMixin(object):
             if "static length" not in str(e) and "symbolically" not in str(e):
                 raise
         # symbolic length: [elt for target in iterable] with a pure element expression
-        if len(node.generators) != 1 or node.generators[0].ifs:
-            raise VerifError("symbolic comprehension with filters / nesting")
+        if len(node.generators) == 1 and node.generators[0].ifs:
+            return self.comprehension_filtered(node)
+        if len(node.generators) != 1:
+            raise VerifError("symbolic comprehension with nesting")
         gen = node.generators[0]
         n, getter = self.iter_len_get(self.ev(gen.iter, False))
         i = z3.Int("k!q%d" % self.explorer.next_id())
